@@ -59,6 +59,30 @@ def cases(rng, tier):
                 big = max(range(len(ay)), key=lambda i: ay[i])
                 ay[big] = G.round_fmt(fmt, ay[big] - tiny)
                 ay.insert(y0, tiny)
+            z = rng.random()
+            if z < 0.1:
+                # rare hypothesis x rare outcome: tiny base rate on X and a tiny likelihood that every other x excludes
+                ax = G.inject_tiny(rng, fmt, ax) or ax
+                t = rng.choice(G.TINY[fmt])
+                x0 = min(range(n), key=lambda i: ax[i]); y1 = rng.randrange(m)
+                conds = []
+                for x in range(n):
+                    bb = [0.0] * m
+                    if x == x0:
+                        bb[y1] = t
+                        bb[(y1 + 1) % m] = G.round_fmt(fmt, 1.0 - t)
+                    else:
+                        bb[(y1 + 1) % m] = 1.0
+                    conds += bb + [0.0]
+            elif z < 0.2:
+                # nearly vacuous (but not vacuous by the guard) conditionals, all others vacuous
+                conds = []
+                for x in range(n):
+                    if x == 0:
+                        bb, uu = G.edge_simplex(rng, fmt, m, "vac_edge")
+                    else:
+                        bb, uu = [0.0] * m, 1.0
+                    conds += bb + [uu]
             fam = rng.choice(G.FAMS_1D)
             r = rng.random()
             if r < 0.45:
